@@ -117,7 +117,7 @@ func closedCheckDigit(rdfi string) string {
 }
 
 // NPerturb is the number of perturbation kinds.
-const NPerturb = 27
+const NPerturb = 28
 
 // Perturb changes f in place (f must be a private clone).  It returns a description,
 // the batch it touched (ok=false: a file level change) and whether anything changed.
@@ -367,6 +367,29 @@ func Perturb(r *rng.R, f *ach.File, kind int) (desc string, t Target, batchLevel
 		case 24:
 			pm(fc.cred)
 			desc = "file control credit total +-1"
+		case 27:
+			// a batch of the other family: an ADV batch behind the batches of a non-ADV file, or a
+			// standard batch behind those of an ADV file (an ADV file may hold ADV batches only)
+			if len(f.Batches) == 0 {
+				return "no standard batches", t, false, false
+			}
+			var nb ach.Batcher
+			if f.IsADV() {
+				nb = gen.FileOfSEC(r, ach.PPD, gen.Opts{ForwardOnly: true, MinBatches: 1, MaxBatches: 1, MaxEntries: 2}).Batches[0]
+				desc = "PPD batch appended to an ADV file"
+			} else {
+				nb = gen.ADVFile(r).Batches[0]
+				desc = "ADV batch appended to a non-ADV file"
+			}
+			n := len(f.Batches) + len(f.IATBatches) + 1
+			nb.GetHeader().BatchNumber = n
+			if c := nb.GetControl(); c != nil {
+				c.BatchNumber = n
+			}
+			if c := nb.GetADVControl(); c != nil {
+				c.BatchNumber = n
+			}
+			f.Batches = append(f.Batches, nb)
 		case 25:
 			if len(f.Batches) < 2 {
 				return "single batch", t, false, false
@@ -393,7 +416,7 @@ func Perturb(r *rng.R, f *ach.File, kind int) (desc string, t Target, batchLevel
 // re-tabulating with Create() gives a consistent file again).
 func EntryLevel(kind int) bool {
 	switch kind {
-	case 10, 11, 14, 16, 17, 18, 19:
+	case 10, 11, 14, 16, 17, 18, 19, 27:
 		return true
 	}
 	return false
